@@ -349,11 +349,21 @@ func evalClassDeclareStmt(vm *r.VM, node *syntax.ClassDeclareStmt) error {
 		return err
 	}
 
-	// then add symbol to export value
-	if err := module.AddExportValue(className.GetLiteral(), classRef); err != nil {
-		return err
+	// then add symbol to export value - only for the module's own (top-level) types: a type
+	// defined inside a method body belongs to that body and is gone when it returns
+	if isModuleLevel(vm) {
+		if err := module.AddExportValue(className.GetLiteral(), classRef); err != nil {
+			return err
+		}
 	}
 	return nil
+}
+
+// isModuleLevel - whether the statement being executed belongs to the module body itself
+// (not to the body of a method or of a handler)
+func isModuleLevel(vm *r.VM) bool {
+	frame := vm.GetCurrentCallFrame()
+	return frame != nil && frame.IsScriptCallFrame()
 }
 
 // 如何XX？
@@ -372,8 +382,9 @@ func evalFunctionDeclareStmt(vm *r.VM, node *syntax.FunctionDeclareStmt) error {
 		return err
 	}
 
-	// then add symbol to export value
-	if module != nil {
+	// then add symbol to export value (see evalClassDeclareStmt: top-level methods only;
+	// otherwise the second call of the enclosing method would find the name taken)
+	if module != nil && isModuleLevel(vm) {
 		if err := module.AddExportValue(vtag.GetLiteral(), fn); err != nil {
 			return err
 		}
